@@ -130,6 +130,14 @@ class VLoop(asyncio.BaseEventLoop):
                 t._log_destroy_pending = False
                 if t.done():
                     t._log_traceback = False
+                else:
+                    # finalise the coroutine now, while this loop is still the running one: otherwise
+                    # its finally-blocks run when the garbage collector gets to it - inside the *next*
+                    # execution, whose loop they would then use
+                    try:
+                        t.get_coro().close()
+                    except BaseException:  # noqa: BLE001
+                        pass
             self.created = []
             self._ready.clear()
             self._scheduled.clear()
